@@ -12,7 +12,7 @@ pub fn property() -> Property {
     Property {
         id: "C07",
         level: "exploration",
-        rule: "stateful UCI sessions on ONE engine instance (in-process Engine<CommandUciTx>; every 8th session also over stdin/stdout of the real binary): 1..6 cycles of [ucinewgame] position (startpos|fen, with move history) go <limit>, limits drawn from depth 1..4, movetime 0..40, wtime/btime 0..6000 with winc/binc absent / 0 / >0 and movestogo, searchmoves (non-empty subset of the legal moves), infinite / nodes / mate / bare go followed by stop after 0..200 ms, stray stop / ponderhit / isready while idle; roots include positions that already occurred three times in the supplied history, single-reply, mate and stalemate roots. Oracle: one BestMove per go; for a root with legal moves it is a move of the reference legal set of the last position command (within searchmoves), never null; for a root without legal moves it is the null move; the search thread is alive at the end. Non-trivial = distinct (root, go-parameter class) with a time limit, searchmoves, a stop, or repetition history",
+        rule: "stateful UCI sessions on ONE engine instance (in-process Engine<CommandUciTx>; every 8th session also over stdin/stdout of the real binary): 1..6 cycles of [ucinewgame] position (startpos|fen, with move history) go <limit>, limits drawn from depth 0..4, movetime 0..40, wtime/btime 0..6000 with winc/binc absent / 0 / >0 and movestogo, searchmoves (non-empty subset of the legal moves), infinite / nodes / mate / bare go followed by stop after 0..200 ms, stray stop / ponderhit / isready while idle; roots include positions that already occurred three times in the supplied history, single-reply, mate and stalemate roots. Oracle: one BestMove per go; for a root with legal moves it is a move of the reference legal set of the last position command (within searchmoves), never null; for a root without legal moves it is the null move; the search thread is alive at the end. Non-trivial = distinct (root, go-parameter class) with a time limit, searchmoves, a stop, or repetition history",
         assumptions: &["the driver is a well-behaved GUI: never sends position/go while a search runs and always sends both clock times", "full-move numbers <= 2000 by construction (known finding K1); one explicit probe of K1 per run", "a 90 s silence with a live search thread is reported as inconclusive (exit 2), never as a violation"],
         parts: vec![
             Part {
@@ -143,7 +143,7 @@ pub fn build_go(c: &RawCycle, root: &Pos) -> GoSpec {
     let mut g = GoSpec::default();
     let stop_table = [0u64, 1, 5, 20, 80, 200];
     match c.go_kind {
-        0 | 1 => g.depth = Some(1 + (c.a % 4) as u64),
+        0 | 1 => g.depth = Some((c.a % 5) as u64),
         2 => g.movetime = Some([0u64, 0, 1, 2, 5, 10, 20, 40][(c.a % 8) as usize]),
         3 | 4 => {
             g.wtime = Some([0u64, 1, 10, 100, 1000, 6000][(c.a % 6) as usize]);
